@@ -654,7 +654,7 @@ func (e *Exec) atExit(s *State, res []Val) {
 	e.curPos = token.NoPos
 	env := e.exitEnv(s, res)
 	for _, en := range con.Ensures {
-		e.prove("ensures", fmt.Sprint(en.Ord), en.Tags, s, en.Expr, env, "ensures "+en.Src)
+		e.prove("ensures", en.Label(), en.Tags, s, en.Expr, env, "ensures "+en.Src)
 	}
 	e.frameObligations(s)
 	if len(s.defers) > 0 {
